@@ -215,6 +215,47 @@ def handle (j : Json) : Except String Json := do
       Json.mkObj [("V", encStrs r.1), ("Sigma", encStrs r.2.1), ("S", Json.str r.2.2.2),
         ("R", Json.arr (r.2.2.1.map fun e => Json.arr #[Json.str e.1,
            Json.arr (e.2.map fun x => encStrs [if x.1 then "v" else "t", x.2]).toArray]).toArray)]) P.toCfgRaw)
+  -- exercise checkers, object level (C12/C13)
+  | "chk_language_from_words" => do
+    pure (okJ (Json.bool (Check.languageFromWords (← getNat j "nQ") (← getNat j "max") (← getWords j "A") (← getWords j "words"))))
+  | "chk_product" => do
+    let D1 ← decDFA (← j.getObjVal? "D1"); let D2 ← decDFA (← j.getObjVal? "D2"); let A ← decDFA (← j.getObjVal? "A")
+    let t ← match (← getStr j "type") with
+      | "union" => pure ProductType.union
+      | "intersection" => pure ProductType.intersection
+      | "symmetric_difference" => pure ProductType.symmetricDifference
+      | _ => throw "bad product type"
+    pure (okJ (match Check.productCheck t D1 D2 A (← getNat j "len") with | none => Json.null | some b => Json.bool b))
+  | "chk_complement" => do
+    let D1 ← decDFA (← j.getObjVal? "D1"); let A ← decDFA (← j.getObjVal? "A")
+    pure (okJ (Json.bool (Check.complementCheck D1 A)))
+  | "chk_reverse" => do
+    let D ← decDFA (← j.getObjVal? "D"); let A ← decNFA (← j.getObjVal? "A")
+    pure (exc Json.bool (Check.reverseCheck D A (← getSched j) (← getNat j "len")))
+  | "chk_minimal" => do
+    let D ← decDFA (← j.getObjVal? "D"); let A ← decDFA (← j.getObjVal? "A")
+    pure (exc Json.bool (Check.minimalCheck D A (← getNat j "len")))
+  | "chk_nfa2dfa" => do
+    let N ← decNFA (← j.getObjVal? "N"); let A ← decNFA (← j.getObjVal? "A")
+    pure (exc Json.bool (Check.nfaToDfaCheck N A (← getSched j)))
+  | "chk_cyk" => do
+    let G ← decCFG (← j.getObjVal? "G")
+    pure (exc Json.bool (Check.cykCheck G (← getStrList j "w") (← getStr j "answer")))
+  | "chk_derivation" => do
+    let G ← decCFG (← j.getObjVal? "G")
+    pure (okJ (Json.bool (Check.derivationCheck G (← getStr j "derivation") (← getStrList j "w") (← getNat j "kind"))))
+  | "chk_chomsky" => do
+    let G ← decCFG (← j.getObjVal? "G"); let G1 ← decCFG (← j.getObjVal? "G1")
+    pure (okJ (Json.bool (Check.chomskyCheck G G1 (← getNat j "phase") (← getStr j "start") (← getNat j "len"))))
+  -- text formats (C16/C17)
+  | "parse_dfa" => do pure (exc encDFA (Parse.parseDfa (← getStr j "text").toList))
+  | "parse_nfa" => do pure (exc encNFA (Parse.parseNfa (← getStr j "text").toList))
+  | "parse_pda" => do pure (exc encPDA (Parse.parsePda (← getStr j "text").toList))
+  | "parse_tm" => do pure (exc encTM (Parse.parseTm (← getStr j "text").toList))
+  | "print_dfa" => do pure (okJ (Json.str (Parse.printDfa (← decDFA (← j.getObjVal? "D")))))
+  | "print_nfa" => do pure (okJ (Json.str (Parse.printNfa (← decNFA (← j.getObjVal? "N")))))
+  | "print_pda" => do pure (okJ (Json.str (Parse.printPda (← decPDA (← j.getObjVal? "P")))))
+  | "print_tm" => do pure (okJ (Json.str (Parse.printTm (← decTM (← j.getObjVal? "T")))))
   | _ => throw s!"unknown op {op}"
 
 partial def loop (h : IO.FS.Stream) (out : IO.FS.Stream) : IO Unit := do
